@@ -23,10 +23,18 @@ import (
 const simrtPath = "github.com/hashicorp/raft/simrt"
 const simfsPath = "github.com/hashicorp/raft/simfs"
 
+var clockFuncs = map[string]string{"Now": "TNow", "Since": "TSince", "After": "TAfter", "NewTimer": "TNewTimer", "NewTicker": "TNewTicker"}
+
+// files whose time calls are not rewritten: transports (deadlines are handed to the stream layer,
+// which lives on the bubble clock) and the in-memory / test helpers
+var noClockRewrite = map[string]bool{"net_transport.go": true, "tcp_transport.go": true, "inmem_transport.go": true, "inmem_store.go": true,
+	"inmem_snapshot.go": true, "testing.go": true, "testing_batch.go": true, "discard_snapshot.go": true}
+
 type rw struct {
 	fset *token.FileSet
 	name string
 	used bool
+	clock bool
 	done map[ast.Node]bool
 	n    int
 }
@@ -233,7 +241,7 @@ func main() {
 	}
 	dir := args[0]
 	files, _ := filepath.Glob(filepath.Join(dir, "*.go"))
-	nsel, ngo, nchan := 0, 0, 0
+	nsel, ngo, nchan, nclock := 0, 0, 0, 0
 	for _, f := range files {
 		if strings.HasSuffix(f, "_test.go") || strings.HasPrefix(filepath.Base(f), "zz_verif") {
 			continue
@@ -289,6 +297,24 @@ func main() {
 		if bad {
 			os.Exit(2)
 		}
+		// node clocks: time.Now/Since/After/NewTimer/NewTicker in the protocol sources read the
+		// owning server's clock (simrt/clock.go); transports and test helpers keep the plain calls
+		if !noClockRewrite[r.name] {
+			ast.Inspect(af, func(n ast.Node) bool {
+				if se, ok := n.(*ast.SelectorExpr); ok {
+					if x, ok := se.X.(*ast.Ident); ok && x.Name == "time" && x.Obj == nil {
+						if t, ok := clockFuncs[se.Sel.Name]; ok {
+							se.X = id("simrt")
+							se.Sel = id(t)
+							r.used = true
+							r.clock = true
+							nclock++
+						}
+					}
+				}
+				return true
+			})
+		}
 		// imports
 		for _, im := range af.Imports {
 			switch im.Path.Value {
@@ -308,6 +334,10 @@ func main() {
 					im.Name = id("os")
 				}
 			}
+		}
+		if r.clock {
+			// the file may not use package time for anything else any more
+			af.Decls = append(af.Decls, &ast.GenDecl{Tok: token.VAR, Specs: []ast.Spec{&ast.ValueSpec{Names: []*ast.Ident{id("_")}, Type: sel("time", "Duration")}}})
 		}
 		if r.used {
 			spec := &ast.ImportSpec{Name: id("simrt"), Path: &ast.BasicLit{Kind: token.STRING, Value: `"` + simrtPath + `"`}}
@@ -333,5 +363,5 @@ func main() {
 			os.Exit(2)
 		}
 	}
-	fmt.Printf("simgen: rewrote %d select, %d go, %d channel operations in %d files\n", nsel, ngo, nchan, len(files))
+	fmt.Printf("simgen: rewrote %d select, %d go, %d channel operations, %d clock reads/timers in %d files\n", nsel, ngo, nchan, nclock, len(files))
 }
